@@ -85,12 +85,22 @@ Definition exp_octets (bmsign expval : Z) : list Z :=
   else if expval <=? 32767 then [bmsign + 1; (expval / 256) mod 256; expval mod 256]
   else [bmsign + 2; (expval / 65536) mod 256; (expval / 256) mod 256; expval mod 256].
 
-(* dscr[0] = 0x10 | (dscr[0] & 0x0f) — done for every non-special double, the
-   subnormal ones included (they have no hidden bit: known defect) *)
-Definition set_hidden_bit (dscr : list Z) : list Z :=
+(* if(expval < DBL_MIN_EXP - 1) { dscr[0] &= 0x0f; expval = DBL_MIN_EXP - 1; }
+   else dscr[0] = 0x10 | (dscr[0] & 0x0f);
+   a subnormal has no hidden bit and the exponent of the smallest normal *)
+Definition DBL_MIN_EXP : Z := -1021.
+Definition set_lead (sub : bool) (dscr : list Z) : list Z :=
   match dscr with
   | [] => []
-  | b0 :: t => (16 + b0 mod 16) :: t
+  | b0 :: t => (if sub then b0 mod 16 else 16 + b0 mod 16) :: t
+  end.
+
+(* mstart = dscr; while(mstart < mstop && *mstart == 0) mstart++;
+   on the bytes dscr[0..mstop]: leading zero bytes go, the last byte always stays *)
+Fixpoint skip_lead_zeros (l : list Z) : list Z :=
+  match l with
+  | b :: (_ :: _) as t => if b =? 0 then skip_lead_zeros t else l
+  | _ => l
   end.
 
 Definition double2REAL (d : Z) : list Z :=
@@ -101,17 +111,19 @@ Definition double2REAL (d : Z) : list Z :=
     else if d_sign d =? 0 then [] else [67]
   else
     let dscr0 := be_bytes 7 d in             (* bytes 6..0 of the little-endian double *)
-    let mstop := mstop_of dscr0 in           (* found on the scratch pad BEFORE the hidden bit is set *)
+    let mstop := mstop_of dscr0 in           (* found on the scratch pad BEFORE dscr[0] is rewritten *)
     let bmsign := 128 + 64 * d_sign d in     (* 0x80 | ((s[1] >> 1) & 0x40) *)
-    let dscr := set_hidden_bit dscr0 in
-    let ex1 := ex - (8 * (mstop + 1) - 4) in
+    let sub := ex <? DBL_MIN_EXP - 1 in
+    let dscr := set_lead sub dscr0 in
+    let ex0 := if sub then DBL_MIN_EXP - 1 else ex in
+    let ex1 := ex0 - (8 * (mstop + 1) - 4) in
     let kept := firstn (Z.to_nat (mstop + 1)) dscr in
     let mval := nth (Z.to_nat mstop) dscr 0 in
     if negb (mval =? 0) && (mval mod 2 =? 0) then
       let sc := shift_count mval in
-      exp_octets bmsign (ex1 + sc) ++ shr_bytes sc 0 kept
+      exp_octets bmsign (ex1 + sc) ++ skip_lead_zeros (shr_bytes sc 0 kept)
     else
-      exp_octets bmsign ex1 ++ kept.
+      exp_octets bmsign ex1 ++ skip_lead_zeros kept.
 
 (* ================================================================ *)
 (* asn_REAL2double                                                  *)
@@ -261,23 +273,6 @@ Definition der_real_form (bs : list Z) : bool :=
           match mn with
           | [] => false
           | m0 :: _ => negb (m0 =? 0) && (last_byte mn mod 2 =? 1)
-          end
-      end
-  end.
-
-(* the same without the "no leading zero mantissa octet" clause *)
-Definition der_real_form_weak (bs : list Z) : bool :=
-  match bs with
-  | [] => true
-  | [b] => (64 <=? b) && (b <=? 67)
-  | _ =>
-      match split_binary bs with
-      | None => false
-      | Some (b, ex, mn) =>
-          ((b / 4) mod 16 =? 0) && minimal_twos ex &&
-          match mn with
-          | [] => false
-          | _ :: _ => last_byte mn mod 2 =? 1
           end
       end
   end.
